@@ -477,7 +477,8 @@ Qed.
 (* ---- .properties, the remaining layouts (Proofs/C02BlocksPropsX.v) -----------------------------------
    One block grammar for everything above and, in addition: blanks, tabs and carriage returns
    between a value and its newline (CRLF files); indentation between an attached comment and its
-   key; a last standalone comment without its newline.  Blocks: [XBlank w], [XComment cs nl],
+   key; a last standalone comment without its newline; a garbage region at the end of the file
+   whose last line has no newline ([XGarbageEof gl lg]).  Blocks: [XBlank w], [XComment cs nl],
    [XEntity cs iw key b1 sc b2 conts lastl tb nl] (attached comment lines, indentation, key,
    separator, value lines, trailing blanks, newline), [XGarbage gl]; [legal_xblock] and
    [xadjacent_ok] are the decidable premises (as for C02_blocks_properties and
@@ -527,10 +528,16 @@ Example C02_blocks_properties_x_example :
     [(A [107], A [118], None); (A [97; 32; 98], A [120; 32; 121], Some (A [35; 99]));
      (A [107], A [118], None); (A [97; 32; 98], A [120; 32; 121], Some (A [35; 99]))] /\
   let bs2 := [C02BlocksPropsX.xx_c; C02BlocksPropsX.XBlank (A [10]); C02BlocksPropsX.xx_e3] in
-  Forall C02BlocksPropsX.legal_xblock bs2 /\ C02BlocksPropsX.xadjacent_ok bs2.
+  Forall C02BlocksPropsX.legal_xblock bs2 /\ C02BlocksPropsX.xadjacent_ok bs2 /\
+  let bs3 := [C02BlocksPropsX.xx_e1; C02BlocksPropsX.XBlank (A [10]);
+              C02BlocksPropsX.XGarbageEof [A [103]; []] (A [32; 120])] in
+  Forall C02BlocksPropsX.legal_xblock bs3 /\ C02BlocksPropsX.xadjacent_ok bs3 /\
+  map (fun e => (e_kind e, e_span e)) (C02BlocksPropsX.xentries_of bs3) =
+  [(KEntity, (0, 3)); (KWhitespace, (3, 6)); (KJunk, (6, 11))].
 Proof.
   split; [repeat constructor|]. split; [vm_compute; reflexivity|]. split; [vm_compute; reflexivity|].
-  split; [reflexivity|]. split; [repeat constructor|]. vm_compute; reflexivity.
+  split; [reflexivity|]. split; [repeat constructor|]. split; [vm_compute; reflexivity|].
+  split; [repeat constructor|]. split; vm_compute; reflexivity.
 Qed.
 
 (* ---- junk regions for .ini (Proofs/C02BlocksIniJunk.v) --------------------------------------------
@@ -861,7 +868,7 @@ Proof. exact C02BlocksPo.px_one_blank_line. Qed.
 
 (* ---- stated, NOT PROVED ---------------------------------------------------------------------
    Still missing: garbage outside the stated region grammars (DTD garbage that starts with <!ENTITY or
-   <!--, inc and po garbage with a # in it, po garbage containing "ms", properties/ini garbage
-   whose last line has no newline at the end of the file or that shares a line with what
-   follows); Fluent and Android (library parsers: oracle only).  The executable counterpart of
+   <!--, inc and po garbage with a # in it, po garbage containing "ms", ini garbage whose last
+   line has no newline at the end of the file, properties/ini garbage that shares a line with
+   what follows); Fluent and Android (library parsers: oracle only).  The executable counterpart of
    all of it is the oracle of harness/props/c02.py for all seven formats. *)
